@@ -37,6 +37,10 @@ CHECKS["C10"] = dict(level="exploration",
    text="Generated histories that interleave commits with failed commits and crash leftovers (both leave uncommitted vN metadata files), then a pointer damage drawn from a byte grammar (17 classes incl. stale and orphan-naming content), then an action (load, create with another schema, append, scan, GC after ageing). The table in effect must have the original uuid/schema and exactly the snapshots and rows of the latest COMMITTED version known to the harness; create must not re-initialise; a follow-up append must preserve all committed rows and build on the latest committed version; GC must not delete its files.",
    note="Three root causes are listed as known findings (pointer naming an existing stale / uncommitted file is trusted; crash orphan surfaces after pointer loss): their cases are counted and reported as KNOWN-FINDING, every other bucket is a VIOLATION. 'Committed' is defined by the pointer history the harness records after successful calls.",
    technique="property-based testing (Hypothesis histories + pointer-byte grammar) against a model of committed versions and an independent reader", design="3/C10")
+CHECKS["C04"] = dict(level="fault_enumeration",
+   text="For every scenario (3 backends x 5 operations x up to 4 documented call styles) the step sequence of a clean run is recorded (local: every os-level call of the storage, data-file and lock modules plus every storage API call; S3: every request) and one fault is injected at EVERY step: storage error before effect, (S3) error after effect on every PUT/DELETE, KeyboardInterrupt before and after, SystemExit before; plus double faults with a second error 1-8 steps later. After each injection an independent reader classifies the table as pre / post / damaged: success implies post, a non-ambiguous storage error implies pre, an interrupt implies pre or post, AmbiguousCommitError only from an object-store pointer fault and then no file written by the transaction is missing; every retained snapshot must verify; a follow-up append + scan on a fresh handle must work and must not reference any file of the failed transaction. Exhaustive over the step sequence of each scenario, not over scenarios.",
+   note="Fault-free step sequences are assumed reproducible between the recording run and the injection run (checked: a fault that is never reached is counted, not judged). Errors on close(2) are raised after its effect (the descriptor is always released). After an interrupt the process is assumed to exit (kernel locks dropped / S3 lease lapsed) before the follow-up.",
+   technique="exhaustive single-fault injection over recorded step sequences (plus bounded double faults), oracle = independent reader state classification", design="3/C04")
 NOT_YET = {}
 
 def main():
